@@ -176,7 +176,7 @@ def translate(ck):
         if kind in CONTAINER_KINDS and kind not in farms:
             rec = bool(re.search(r"self\.format_with_cycles\(", body))
             # formatting a nested value through Display/Debug starts a fresh detector (depth 0): unbounded
-            deleg = bool(re.search(r"write!\(\s*f\s*,\s*\"[^\"]*\{[:#?]*\}[^\"]*\"\s*,\s*&?\s*(hm|hs|b\.read\(\)|b\.get\(\)|[a-z]+\.as_ref\(\)|hs\.0|item|last|i|value|key|p\.car|p\.cdr|[a-z]+\.car\(\)|[a-z]+\.cdr\(\))\b", body))
+            deleg = bool(re.search(r"write!\(\s*f\s*,\s*\"[^\"]*\{[:#?]*\}[^\"]*\"\s*,\s*&?\s*(?:hm\b|hs\b|b\.read\(\)|b\.get\(\)|[a-z]+\.as_ref\(\)|item\b|last\b|i\b|p\.car\b|p\.cdr\b|[a-z]+\.car\(\)|[a-z]+\.cdr\(\))", body))
             farms[kind] = "Rec" if deleg else (("RecBounded" if guarded else "Rec") if rec else "Leaf")
     if len(farms) < 8:
         raise TieBroken("translator C18: only %d container arms found in format_with_cycles" % len(farms))
